@@ -27,6 +27,10 @@ structure Laws {A : Type} (R : Arith A) (M : ErrModel) : Prop where
     ∃ c z, R.sub a b = .ok c ∧ R.val c = some z ∧ ratAbs (z - (x - y)) ≤ M.Ea (x - y)
   beq_val : ∀ a b x y, R.val a = some x → R.val b = some y → R.beq a b = decide (x = y)
   pcmp_val : ∀ a b x y, R.val a = some x → R.val b = some y → R.pcmp a b = some (ratCmp x y)
+  /-- `==` is `partial_cmp == Some(Equal)`, for ALL values (NaN, infinities included) -/
+  beq_pcmp : ∀ a b, R.beq a b = (R.pcmp a b == some .eq)
+  /-- swapping the operands of `partial_cmp` reverses the answer, for ALL values -/
+  pcmp_flip : ∀ a b, R.pcmp b a = Oracle.flipOrd (R.pcmp a b)
   one_val : R.val R.one = some 1
   zero_val : R.val R.zero = some 0
   /-- exact cases: no rounding when the exact result is an operand or one -/
